@@ -58,16 +58,16 @@ MIN = {
               'multiline_values': 2000, 'leaf_items': 20000,
               'feat:nested-include': 50, 'feat:include-in-multiline': 50,
               'feat:jinja-for': 100, 'feat:repeated-graph-key': 200},
-    'thorough': {'files_checked': 30000, 'nontrivial_files': 20000,
-                 'with_jinja': 8000, 'include_effective': 10000,
-                 'jinja_effective': 8000, 'continuation_effective': 25000,
-                 'multiline_values': 40000, 'leaf_items': 400000,
+    'thorough': {'files_checked': 20000, 'nontrivial_files': 15000,
+                 'with_jinja': 6000, 'include_effective': 10000,
+                 'jinja_effective': 6000, 'continuation_effective': 15000,
+                 'multiline_values': 40000, 'leaf_items': 300000,
                  'feat:nested-include': 1000,
                  'feat:include-in-multiline': 1000,
                  'feat:jinja-for': 2000, 'feat:repeated-graph-key': 4000},
 }
 NCASES = {'quick': 64, 'thorough': 512}
-FILES_PER_CASE = {'quick': 34, 'thorough': 80}
+FILES_PER_CASE = {'quick': 34, 'thorough': 60}
 CASE_TIMEOUT = 600
 
 
